@@ -447,8 +447,13 @@ def run_check(check, tier, seed, out=sys.stdout):
         ev['coverage']['probes_never_hit'] = zero
     if hasattr(check, 'extra_evidence'):
         ev['coverage'].update(check.extra_evidence(agg) or {})
-    os.makedirs(os.path.join(boot.VERIF, 'evidence'), exist_ok=True)
-    with open(os.path.join(boot.VERIF, 'evidence', check.ID + '.json'), 'w') as f:
+    # evidence describes /repo; a run against another tree (VERIF_REPO: seeded changes,
+    # mutants) must not overwrite it
+    evdir = os.path.join(boot.VERIF, 'evidence') if os.path.realpath(boot.REPO) == '/repo' \
+        else os.path.join(boot.VERIF, 'build', 'evidence-other-tree')
+    os.makedirs(evdir, exist_ok=True)
+    ev['tree'] = boot.REPO
+    with open(os.path.join(evdir, check.ID + '.json'), 'w') as f:
         json.dump(ev, f, indent=1, default=str)
     for ln in lines:
         print(ln, file=out)
